@@ -85,10 +85,18 @@ class ProgRun:
             sets_since = 0
 
             def compare(step):
-                got = [drv.get(s) & ((1 << len(s)) - 1) for s in self.B.sigs]
+                exact = [drv.get(s) for s in self.B.sigs]
+                got = [v & ((1 << len(s)) - 1) for v, s in zip(exact, self.B.sigs)]
                 exp = ref.observe()
                 if not self.compare_ref:
                     return got, []
+                # what a testbench reads must be the value in the signal's own shape (a signed signal reads as a signed int)
+                for i, v in enumerate(exact):
+                    want = ref.sig_value(i)
+                    if v != want and got[i] == exp[i]:
+                        raise Violation("signal_value_not_normalised", step, {"signal": i, "name": sigs[i]["name"], "read": v,
+                                                                             "expected": want, "signed": sigs[i]["signed"],
+                                                                             "width": sigs[i]["width"]})
                 if got != exp:
                     i = next(k for k in range(len(got)) if got[k] != exp[k])
                     raise Violation("signal_value", step, {"signal": i, "name": sigs[i]["name"], "role": sigs[i]["role"],
